@@ -21,7 +21,8 @@ META = {
         'Also (D3): per-kind components of _approx_check (datetime: zone, date, time; Quantity: unit, value; Coordinate: latitude, longitude) all enter the comparison; the float branch is exact tests plus ONE absolute tolerance in [5e-7, 1e-6] (relative or operand-dependent bounds are violations); (D1) __hash__ reads a field through the same coarsening (round/lower/...) that __eq__ compares.  Also (D1): __ne__ written as `not self.__eq__(other)` is refused when __eq__ answers NotImplemented for foreign kinds.  Not decided: reflexivity/symmetry over all pairs as executions; the float tolerance itself.'
         " Also (D1): the unit test of Qty._cmp_op tells apart exactly the units __hash__ tells apart (decision table).  (D3) C16's refusal clause: nothing is written to a metadata/column map before the validator accepted the value, so a refused update cannot leave a key without value (Grid.__eq__ would raise KeyError)."
         ' Also (D3): the first branch of _approx_check that a (bool, number) pair satisfies is the boolean branch.'
-        ' Also (D1): Ref constructor / __eq__ / __hash__ evaluated over the six constructor states: equal references hash alike; with and without display string differ.'),
+        ' Also (D1): Ref constructor / __eq__ / __hash__ evaluated over the six constructor states: equal references hash alike; with and without display string differ.'
+        ' Round 9: (D1) Qty.__eq__ and Qty.__ne__ hand complementary operators to _cmp_op (decision table incl. NaN, -0.0, inf) and == holds only for values that hash alike; isinstance disjunctions are read as tuple tests.'),
     'rule_text': 'one obligation per (class, rule) for 10 classes, per singleton fact, per _approx_check branch '
                  '(guard dominance), per coverage fact of Grid.__eq__',
     'trusted_base': ['Python falls back to the reflected __eq__ and then to identity when NotImplemented is returned; '
